@@ -154,7 +154,9 @@ CrashCases(tier) ==
 
 ProcessCrashCases(tier) ==
   LET E == SetToSeq(C09P_Exprs)
+      P == SetToSeq(C09P_PredBodies)
   IN [i \in 1..Len(E) |-> C09P_Case(i, E[i])] \o <<[FlowProbe EXCEPT !.id = Len(E) + 1]>>
+       \o [i \in 1..Len(P) |-> C09P_PredCase(Len(E) + 1 + i, P[i])]
 
 NullableCases(tier) ==
   LET S == SetToSeq(C10_Bodies)
@@ -209,6 +211,34 @@ LargeAmountCases ==
                                 WName("startOffset"), WStr(<<45>>), WName("endOffset"), WStr(<<47>>), WName("totalMatches"), WName("tinc")>>]>>,
          texts |-> T]]
 
+(* bytes outside the small alphabets: CR LF line ends, bytes >= 0x80 next to *)
+(* word anchors, classes, lists and ranges with two-byte items              *)
+ByteCases(tier) ==
+  LET cr == 13  h1 == 195  h2 == 169
+      E  == Lit(<<h1, h2>>)
+      F1 == SetToSeq({<<La, Anc("lineend")>>, <<Anc("linestart"), Cls("any")>>, <<Cls("any"), Anc("lineend")>>,
+                      <<Loop(1, -1, FALSE, La), NotAnc("lineend")>>, <<Cls("whitespace")>>, <<NotCls("whitespace")>>, <<Lit(<<cr, nl>>)>>,
+                      <<Loop(1, -1, FALSE, NotLit(<<nl>>)), Anc("lineend")>>, <<Anc("linestart"), Loop(0, -1, TRUE, Cls("any")), Anc("lineend")>>})
+      F2 == SetToSeq({<<Anc("wordstart"), Cls("any")>>, <<Cls("any"), Anc("wordend")>>, <<Anc("wordstart"), Loop(1, -1, TRUE, Cls("any")), Anc("wordend")>>,
+                      <<Cls("letter")>>, <<Cls("upper")>>, <<Cls("lower")>>, <<NotCls("letter")>>, <<Cls("digit")>>, <<Cls("whitespace")>>,
+                      <<NotIn(<<E, La>>)>>, <<In(<<E, La>>)>>, <<E>>, <<NotLit(<<h1, h2>>)>>, <<In(<<Rng(<<h1, 160>>, <<h1, 191>>)>>)>>,
+                      <<NotIn(<<Rng(<<h1, 160>>, <<h1, 191>>)>>)>>, <<Cap("x", Cls("any")), Ref("x")>>, <<NotAnc("wordstart"), Cls("any")>>,
+                      <<Cls("any"), NotAnc("wordend")>>, <<Loop(1, -1, FALSE, In(<<E, La>>))>>,
+                      <<NotLit(<<ba, h1, h2>>)>>, <<Cls("any"), NotLit(<<h1, h2>>)>>, <<NotIn(<<Lit(<<ba, sp>>), La>>)>>, <<La, NotIn(<<Lit(<<sp, ba, ba>>)>>)>>,
+                      <<In(<<Rng(<<ba, ba>>, <<ba, sp>>)>>)>>, <<NotLit(<<ba, ba, ba>>)>>})
+      hi == IF tier = "quick" THEN 4 ELSE 5
+  IN [i \in 1..Len(F1) |-> MkCase(320000 + i, <<>>, <<FindAllCmd(F1[i])>>, {ba, cr, nl}, hi)]
+     \o [i \in 1..Len(F2) |-> MkCase(321000 + i, <<>>, <<FindAllCmd(F2[i])>>, {ba, h1, h2, sp}, hi)]
+
+(* two-digit minimum counts over bodies that can match nothing               *)
+LargeNullableCases ==
+  LET B == SetToSeq({<<Lit(<<105, 100>>), Loop(10, 10, FALSE, Grp(<<Loop(0, 1, FALSE, La)>>)), Lb>>,
+                     <<Loop(9, -1, FALSE, Grp(<<Loop(0, 1, FALSE, La)>>)), Lb>>,
+                     <<Loop(9, 11, TRUE, Grp(<<Loop(0, 1, FALSE, La)>>)), Lb>>,
+                     <<Loop(12, 12, FALSE, Grp(<<Or(La, Grp(<<>>))>>)), Lb>>})
+      T == <<Rep(ba, 3) \o <<bb>>, <<bb>>, <<105, 100, bb>>, <<105, 100, ba, ba, bb>>, <<105, 100, ba, ba, ba, bb>>, <<ba, ba, bb>>, <<ba, ba>>>>
+  IN [i \in 1..Len(B) |-> [id |-> 330000 + i, defs |-> <<>>, cmds |-> <<FindAllCmd(B[i])>>, texts |-> T]]
+
 CasesOf(fam, tier) ==
   CASE fam = "C01"  -> LET A0 == BodySeqCases(C01_Bodies(tier), tier)
                            \* the depth-3 bodies of the thorough tier run on the shorter texts
@@ -216,7 +246,7 @@ CasesOf(fam, tier) ==
                                                        THEN [A0[i] EXCEPT !.hi = LenFor({A0[i].sigma[j] : j \in 1..Len(A0[i].sigma)}, "quick")]
                                                        ELSE A0[i]]
                            Gc == GlobalSeqCases(C01_GlobalCases, tier, Len(A))
-                       IN [i \in 1..Len(A) |-> WithReplace(A[i], 7)] \o Gc \o ClassTableCases(Len(A) + Len(Gc)) \o LargeCases
+                       IN [i \in 1..Len(A) |-> WithReplace(A[i], 7)] \o Gc \o ClassTableCases(Len(A) + Len(Gc)) \o LargeCases \o ByteCases(tier) \o LargeNullableCases
     [] fam = "C02"  -> BodySeqCases(C02_Bodies, tier)
     [] fam = "C03N" -> BodySeqCases(C03_NamedBodies, tier)
     [] fam = "C02N" -> BodySeqCases(C03_NamedBodies, tier)
